@@ -76,11 +76,27 @@ def set_facts(c):
                                                 (z3.Select(v.ssize, r) == 0) == z3.ForAll([x], z3.Not(z3.Select(z3.Select(v.sdom, r), x))))))]
 
 
+def set_frame(o, n, key, val, may_allocate):
+    """object-level frame of add/remove: only the set of `key`, the inverse set of `val` and fresh sets are written, and
+    the sets of the relation afterwards are the ones before (plus, for add, freshly allocated ones for key / val)"""
+    r = z3.Int('rq')
+    k, x = z3.Consts('kq xq', Val)
+    fresh_k = z3.And(k == key, z3.Select(n.dval, k) >= o.alloc) if may_allocate else z3.BoolVal(False)
+    fresh_x = z3.And(x == val, z3.Select(n.ival, x) >= o.alloc) if may_allocate else z3.BoolVal(False)
+    return [('only the set of key and the inverse set of val are written',
+             z3.ForAll([r], z3.Implies(z3.And(r < o.alloc, z3.Not(z3.And(z3.Select(o.ddom, key), r == z3.Select(o.dval, key))),
+                                              z3.Not(z3.And(z3.Select(o.idom, val), r == z3.Select(o.ival, val)))),
+                                       z3.And(z3.Select(n.sdom, r) == z3.Select(o.sdom, r), z3.Select(n.ssize, r) == z3.Select(o.ssize, r))))),
+            ('the sets of the relation are the ones before' + (' or fresh' if may_allocate else ''), z3.And(
+                z3.ForAll([k], z3.Implies(z3.Select(n.ddom, k), z3.Or(z3.And(z3.Select(o.ddom, k), z3.Select(n.dval, k) == z3.Select(o.dval, k)), fresh_k))),
+                z3.ForAll([x], z3.Implies(z3.Select(n.idom, x), z3.Or(z3.And(z3.Select(o.idom, x), z3.Select(n.ival, x) == z3.Select(o.ival, x)), fresh_x)))))]
+
+
 def add_ensures(c):
     o, n = V(c, c.old), V(c)
     key, val = c.a('key'), c.a('val')
     k, x = z3.Consts('kq xq', Val)
-    return [('wf.' + l, f) for l, f in wf(n)] + [
+    return [('wf.' + l, f) for l, f in wf(n)] + set_frame(o, n, key, val, True) + [
         ('the pair (key, val) is added, every other pair unchanged',
          z3.ForAll([k, x], n.P(k, x) == z3.Or(o.P(k, x), z3.And(k == key, x == val)))),
         ('inv objects unchanged', z3.And(n.i.t == o.i.t, n.d.t == o.d.t, n.id.t == o.id.t))]
@@ -90,7 +106,7 @@ def remove_ensures(c):
     o, n = V(c, c.old), V(c)
     key, val = c.a('key'), c.a('val')
     k, x = z3.Consts('kq xq', Val)
-    return [('wf.' + l, f) for l, f in wf(n)] + [
+    return [('wf.' + l, f) for l, f in wf(n)] + set_frame(o, n, key, val, False) + [
         ('the pair was present', o.P(key, val)),
         ('exactly the pair (key, val) is removed', z3.ForAll([k, x], n.P(k, x) == z3.And(o.P(k, x), z3.Not(z3.And(k == key, x == val))))),
         ('inv objects unchanged', z3.And(n.i.t == o.i.t, n.d.t == o.d.t, n.id.t == o.id.t))]
@@ -115,7 +131,227 @@ FUNCS = ['ManyToMany.add', 'ManyToMany.remove']
 
 def make_engine(repo):
     from pyvc.engine import Engine
-    eng = Engine(repo, FILE, classes=CLASSES, contracts=CONTRACTS)
+    from .opaque_ext import EXTERNALS
+    eng = Engine(repo, FILE, classes=CLASSES, contracts=CONTRACTS, externals=dict(EXTERNALS))
     for c in ALL:
         eng.register_class(c)
     return eng
+
+
+# ---- update (iterable of pairs / mapping with keys()) / __delitem__ / replace: the invariant is preserved ---------------------
+from pyvc.contract import Loop  # noqa: E402
+
+
+def upd_setup(eng, st, variant=None):
+    return dict(self=SRef(M2M, z3.Int('self')), iterable=SVal(z3.Const('arg_iterable', Val)))
+
+
+def upd_inv(c):
+    o, n = V(c, c.old), V(c)
+    return [('wf.' + l, f) for l, f in wf(n)] + [('inv objects unchanged', z3.And(n.i.t == o.i.t, n.d.t == o.d.t, n.id.t == o.id.t))]
+
+
+def upd_ensures(c):
+    o, n = V(c, c.old), V(c)
+    k, x = z3.Consts('kq xq', Val)
+    return [('wf.' + l, f) for l, f in wf(n)] + [('inv objects unchanged', z3.And(n.i.t == o.i.t, n.d.t == o.d.t, n.id.t == o.id.t))]
+
+
+update = Contract('ManyToMany.update', setup=upd_setup, requires=lambda c: wf(V(c)), ensures=upd_ensures, modifies=MOD, facts=set_facts,
+                  loops={'for k in iterable.keys()': Loop(upd_inv, heap=list(KEYS)),
+                         'for key, val in iterable': Loop(upd_inv, heap=list(KEYS))}, variants=['not a ManyToMany'])
+CONTRACTS['ManyToMany.update'] = update
+FUNCS.append('ManyToMany.update')
+
+
+# ---- __delitem__: every pair of the key is removed on both sides ---------------------------------------------------------------
+def del_setup(eng, st, variant=None):
+    return dict(self=SRef(M2M, z3.Int('self')), key=SVal(z3.Const('arg_key', Val)))
+
+
+def del_inv(c):
+    o, n = V(c, c.old), V(c)
+    key, i, seq = c.a('key'), c.x['i'], c.x['seq']
+    idx = seq['idx']
+    S = z3.Select(o.dval, key)                       # the popped set object: no longer reachable from data, never written
+    member = lambda x: z3.Select(z3.Select(o.sdom, S), x)  # noqa: E731
+    processed = lambda x: z3.And(member(x), idx(x) < i)  # noqa: E731
+    k, k2, x = z3.Consts('kq kq2 xq', Val)
+    return [
+        ('the key was present; objects unchanged', z3.And(z3.Select(o.ddom, key), n.i.t == o.i.t, n.d.t == o.d.t, n.id.t == o.id.t)),
+        ('forward side: the key is gone, every other key keeps its set object',
+         z3.And(n.ddom == z3.Store(o.ddom, key, z3.BoolVal(False)),
+                z3.ForAll([k], z3.Implies(k != key, z3.Select(n.dval, k) == z3.Select(o.dval, k))))),
+        ('forward sets (the iterated one included) are untouched',
+         z3.ForAll([k], z3.Implies(z3.Select(o.ddom, k), z3.And(
+             z3.Select(n.sdom, z3.Select(o.dval, k)) == z3.Select(o.sdom, z3.Select(o.dval, k)),
+             z3.Select(n.ssize, z3.Select(o.dval, k)) == z3.Select(o.ssize, z3.Select(o.dval, k)))))),
+        ('inverse side: exactly the processed pairs of the key are removed',
+         z3.ForAll([x, k], n.Q(x, k) == z3.And(o.Q(x, k), z3.Not(z3.And(k == key, processed(x)))))),
+        ('inverse keys keep their set objects', z3.ForAll([x], z3.Implies(z3.Select(n.idom, x), z3.And(
+            z3.Select(o.idom, x), z3.Select(n.ival, x) == z3.Select(o.ival, x))))),
+        ('no empty inverse entries', z3.ForAll([x], z3.Implies(z3.Select(n.idom, x), z3.Select(n.ssize, z3.Select(n.ival, x)) >= 1))),
+    ]
+
+
+def del_ensures(c):
+    o, n = V(c, c.old), V(c)
+    key = c.a('key')
+    k, x = z3.Consts('kq xq', Val)
+    return [('wf.' + l, f) for l, f in wf(n)] + [
+        ('the key was present', z3.Select(o.ddom, key)),
+        ('exactly the pairs of the key are removed', z3.ForAll([k, x], n.P(k, x) == z3.And(o.P(k, x), k != key))),
+        ('inv objects unchanged', z3.And(n.i.t == o.i.t, n.d.t == o.d.t, n.id.t == o.id.t))]
+
+
+def del_raises(c):
+    o = V(c, c.old)
+    return [('KeyError only for an absent key', z3.Not(z3.Select(o.ddom, c.a('key')))),
+            ('state unchanged', z3.And(*[c.eng.heap_arr(c.st, c.eng.classes_by_name[a], f) == c.eng.heap_arr(c.old, c.eng.classes_by_name[a], f)
+                                         for a, f in KEYS]))]
+
+
+delitem = Contract('ManyToMany.__delitem__', setup=del_setup, requires=lambda c: wf(V(c)), ensures=del_ensures,
+                   raises={'KeyError': del_raises}, modifies=MOD, facts=set_facts,
+                   loops={0: Loop(del_inv, heap=list(KEYS))})
+CONTRACTS['ManyToMany.__delitem__'] = delitem
+FUNCS.append('ManyToMany.__delitem__')
+
+
+# ---- replace(key, newkey): every pair (key, x) becomes (newkey, x) on both sides -------------------------------------------------
+def rep_setup(eng, st, variant=None):
+    return dict(self=SRef(M2M, z3.Int('self')), key=SVal(z3.Const('arg_key', Val)), newkey=SVal(z3.Const('arg_newkey', Val)))
+
+
+def rep_P(o, key, newkey, k, x):
+    """the forward pairs after replace, in terms of the pairs before"""
+    return z3.Or(z3.And(k != key, o.P(k, x)), z3.And(k == newkey, o.P(key, x)))
+
+
+def rep_inv(c):
+    o, n = V(c, c.old), V(c)
+    key, newkey, i, seq = c.a('key'), c.a('newkey'), c.x['i'], c.x['seq']
+    idx = seq['idx']
+    S = z3.Select(o.dval, key)
+    member = lambda x: z3.Select(z3.Select(o.sdom, S), x)  # noqa: E731
+    processed = lambda x: z3.And(member(x), idx(x) < i)  # noqa: E731
+    fw = c.Lsv('fwdset')
+    k, k2, x = z3.Consts('kq kq2 xq', Val)
+    return [
+        ('the key was present; objects unchanged; fwdset is the popped set, untouched',
+         z3.And(z3.Select(o.ddom, key), n.i.t == o.i.t, n.d.t == o.d.t, n.id.t == o.id.t, fw.t == S,
+                z3.Select(n.sdom, S) == z3.Select(o.sdom, S), z3.Select(n.ssize, S) == z3.Select(o.ssize, S))),
+        ('forward side is final: pairs of key moved to newkey', z3.ForAll([k, x], n.P(k, x) == rep_P(o, key, newkey, k, x))),
+        ('forward wf', z3.And(
+            z3.ForAll([k], z3.Implies(z3.Select(n.ddom, k), z3.And(z3.Select(n.ssize, z3.Select(n.dval, k)) >= 1,
+                                                                     z3.Select(n.dval, k) >= 1, z3.Select(n.dval, k) < n.alloc,
+                                                                     z3.Select(n.dval, k) != S))),
+            z3.ForAll([k, k2], z3.Implies(z3.And(z3.Select(n.ddom, k), z3.Select(n.ddom, k2), k != k2),
+                                          z3.Select(n.dval, k) != z3.Select(n.dval, k2))),
+            z3.ForAll([k, x], z3.Implies(z3.And(z3.Select(n.ddom, k), z3.Select(n.idom, x)),
+                                         z3.Select(n.dval, k) != z3.Select(n.ival, x))))),
+        ('inverse side: for processed members key is replaced by newkey, everything else as before',
+         z3.ForAll([x, k], n.Q(x, k) == z3.If(processed(x), z3.Or(z3.And(k != key, o.Q(x, k)), k == newkey), o.Q(x, k)))),
+        ('inverse keys and their set objects are unchanged', z3.And(n.idom == o.idom, z3.ForAll([x], z3.Implies(
+            z3.Select(o.idom, x), z3.Select(n.ival, x) == z3.Select(o.ival, x))))),
+        ('no empty inverse entries', z3.ForAll([x], z3.Implies(z3.Select(n.idom, x), z3.And(
+            z3.Select(n.ssize, z3.Select(n.ival, x)) >= 1, z3.Select(n.ival, x) != S)))),
+    ]
+
+
+def rep_ensures(c):
+    o, n = V(c, c.old), V(c)
+    key, newkey = c.a('key'), c.a('newkey')
+    k, x = z3.Consts('kq xq', Val)
+    present = z3.Select(o.ddom, key)
+    return [('wf.' + l, f) for l, f in wf(n)] + [
+        ('every pair (key, x) becomes (newkey, x); all other pairs unchanged',
+         z3.ForAll([k, x], n.P(k, x) == z3.If(present, rep_P(o, key, newkey, k, x), o.P(k, x)))),
+        ('inv objects unchanged', z3.And(n.i.t == o.i.t, n.d.t == o.d.t, n.id.t == o.id.t))]
+
+
+replace = Contract('ManyToMany.replace', setup=rep_setup, requires=lambda c: wf(V(c)), ensures=rep_ensures, modifies=MOD,
+                   facts=set_facts, loops={0: Loop(rep_inv, heap=list(KEYS))}, local_types=dict(fwdset=REF(VSet), revset=REF(VSet)))
+CONTRACTS['ManyToMany.replace'] = replace
+FUNCS.append('ManyToMany.replace')
+
+
+# ---- __setitem__(key, vals): afterwards the key is paired with exactly the members of set(vals) -----------------------------------
+def set_setup(eng, st, variant=None):
+    eng.set_class = VSet
+    return dict(self=SRef(M2M, z3.Int('self')), key=SVal(z3.Const('arg_key', Val)), vals=SVal(z3.Const('arg_vals', Val)))
+
+
+def _locals_at_loop(c):
+    e = c.x['loop_entry']
+    return e
+
+
+def si_common(c, o, n):
+    return [('wf.' + l, f) for l, f in wf(n)] + [('inv objects unchanged', z3.And(n.i.t == o.i.t, n.d.t == o.d.t, n.id.t == o.id.t))]
+
+
+def _not_in_relation(c, n, r):
+    k, x = z3.Consts('kq xq', Val)
+    return z3.And(z3.ForAll([k], z3.Implies(z3.Select(n.ddom, k), z3.Select(n.dval, k) != r)),
+                  z3.ForAll([x], z3.Implies(z3.Select(n.idom, x), z3.Select(n.ival, x) != r)))
+
+
+def _same_set(c, e, r):
+    return z3.And(z3.Select(c.arr(VSet, 'dom'), r) == z3.Select(c.arr(VSet, 'dom', e), r),
+                  z3.Select(c.arr(VSet, 'size'), r) == z3.Select(c.arr(VSet, 'size', e), r))
+
+
+def si_inv_remove(c):
+    """first loop: the values of the key that are not wanted any more are removed one by one"""
+    o, n = V(c, c.old), V(c)
+    key, i, seq = c.a('key'), c.x['i'], c.x['seq']
+    idx = seq['idx']
+    e = c.x['loop_entry']
+    tr, want = e.locals['to_remove'], e.locals['vals']
+    trdom = z3.Select(c.arr(VSet, 'dom', e), tr.t)
+    k, x = z3.Consts('kq xq', Val)
+    return si_common(c, o, n) + [
+        ('the local sets are untouched and are not sets of the relation', z3.And(
+            c.Lsv('to_remove').t == tr.t, c.Lsv('vals').t == want.t, tr.t != want.t, tr.t < c.st.alloc, want.t < c.st.alloc,
+            tr.t >= 1, want.t >= 1, _same_set(c, e, tr.t), _same_set(c, e, want.t),
+            _not_in_relation(c, n, tr.t), _not_in_relation(c, n, want.t))),
+        ('to_remove holds only values of the key', z3.ForAll([x], z3.Implies(z3.Select(trdom, x), o.P(key, x)))),
+        ('exactly the processed members of to_remove are gone',
+         z3.ForAll([k, x], n.P(k, x) == z3.And(o.P(k, x), z3.Not(z3.And(k == key, z3.Select(trdom, x), idx(x) < i)))))]
+
+
+def si_inv_add(c):
+    """second loop: the wanted values that are missing are added one by one"""
+    o, n = V(c, c.old), V(c)
+    key, i, seq = c.a('key'), c.x['i'], c.x['seq']
+    idx = seq['idx']
+    e = c.x['loop_entry']
+    want = e.locals['vals']
+    wdom = z3.Select(c.arr(VSet, 'dom', e), want.t)
+    em = V(c, e)
+    k, x = z3.Consts('kq xq', Val)
+    return si_common(c, o, n) + [
+        ('the local set is untouched and is not a set of the relation', z3.And(
+            c.Lsv('vals').t == want.t, want.t < c.st.alloc, want.t >= 1, _same_set(c, e, want.t), _not_in_relation(c, n, want.t))),
+        ('exactly the processed members of vals are added',
+         z3.ForAll([k, x], n.P(k, x) == z3.Or(em.P(k, x), z3.And(k == key, z3.Select(wdom, x), idx(x) < i))))]
+
+
+def si_ensures(c):
+    o, n = V(c, c.old), V(c)
+    key = c.a('key')
+    k, x = z3.Consts('kq xq', Val)
+    want = c.eng.f_setof(c.a('vals'))
+    return si_common(c, o, n) + [
+        ('pairs of every other key are unchanged', z3.ForAll([k, x], z3.Implies(k != key, n.P(k, x) == o.P(k, x)))),
+        ('the key is paired with exactly the members of set(vals)', z3.ForAll([x], n.P(key, x) == z3.Select(want, x)))]
+
+
+setitem = Contract('ManyToMany.__setitem__', setup=set_setup, requires=lambda c: wf(V(c)), ensures=si_ensures, modifies=MOD,
+                   facts=set_facts, loops={'for val in to_remove': Loop(si_inv_remove, heap=list(KEYS)),
+                                           'for val in vals': Loop(si_inv_add, heap=list(KEYS))},
+                   local_types=dict(to_remove=REF(VSet)))
+CONTRACTS['ManyToMany.__setitem__'] = setitem
+CONTRACTS['ManyToMany.__contains__'] = Contract('ManyToMany.__contains__', inline=True)
+FUNCS.append('ManyToMany.__setitem__')
